@@ -35,6 +35,7 @@ def install_all(reg):
     candidates.install_nfvs(reg)
     from . import symbolic
     symbolic.install(reg)
+    symbolic.install_structure(reg)
     from . import control
     control.install(reg)
     control.install_succession(reg)
